@@ -72,10 +72,16 @@ func indentValue(
 			cursor++
 			continue
 		case '{':
+			if indentNum >= maxNestingDepth {
+				return nil, 0, errors.ErrExceededMaxDepth(src[cursor], cursor)
+			}
 			return indentObject(dst, src, indentNum, cursor, prefix, indentBytes, escape)
 		case '}':
 			return nil, 0, errors.ErrSyntax("unexpected character '}'", cursor)
 		case '[':
+			if indentNum >= maxNestingDepth {
+				return nil, 0, errors.ErrExceededMaxDepth(src[cursor], cursor)
+			}
 			return indentArray(dst, src, indentNum, cursor, prefix, indentBytes, escape)
 		case ']':
 			return nil, 0, errors.ErrSyntax("unexpected character ']'", cursor)
